@@ -177,9 +177,19 @@ func (w *World) RunFunc(pkg, key string, opts RunOpts) (fr *FuncRun) {
 	rpc, rst, vals := ex.runBody(True, st)
 	fr.RetPC, fr.RetSt, fr.RetVals = rpc, rst, vals
 	if ex.fc != nil && !opts.SkipPost {
-		post := &Ctx{ex: ex, fn: fn, fc: ex.fc, st: rst, old: entry, params: params, results: vals, pc: rpc}
-		for _, d := range ex.fc.Of("ensures") {
-			vc.Oblige(fmt.Sprintf("gocvss%s.%s/post/%s", pkg, key, d.Label), "post", Implies(rpc, post.evalBool(d.Text)))
+		if ex.fc.Has("opt", "split_returns") {
+			// one obligation per return site: simpler queries, and a failure names the path
+			for k, re := range ex.rets {
+				post := &Ctx{ex: ex, fn: fn, fc: ex.fc, st: re.st, old: entry, params: params, results: re.vals, pc: re.pc}
+				for _, d := range ex.fc.Of("ensures") {
+					vc.Oblige(fmt.Sprintf("gocvss%s.%s/post/%s/return%d", pkg, key, d.Label, k+1), "post", Implies(re.pc, post.evalBool(d.Text)))
+				}
+			}
+		} else {
+			post := &Ctx{ex: ex, fn: fn, fc: ex.fc, st: rst, old: entry, params: params, results: vals, pc: rpc}
+			for _, d := range ex.fc.Of("ensures") {
+				vc.Oblige(fmt.Sprintf("gocvss%s.%s/post/%s", pkg, key, d.Label), "post", Implies(rpc, post.evalBool(d.Text)))
+			}
 		}
 	}
 	return
@@ -243,15 +253,47 @@ func ScriptFor(prelude string, assumes []*Term, goal *Term, quant bool) string {
 	// definitions must precede their uses: emit defs first, then the asserts
 	var sb strings.Builder
 	sb.WriteString(scriptHead)
-	if quant {
+	bodyText := p.Defs() + body.String() + g
+	fp := filterPrelude(prelude, bodyText)
+	if quant || strings.Contains(fp, "(assert (forall") {
 		sb.WriteString("(set-option :auto_config false)\n(set-option :smt.mbqi false)\n")
 	}
-	sb.WriteString(prelude)
+	sb.WriteString(fp)
 	sb.WriteString(structSortDeclsExtra(prelude))
 	sb.WriteString(p.Decls(nil))
 	sb.WriteString(p.Defs())
 	sb.WriteString(body.String())
 	fmt.Fprintf(&sb, "(assert %s)\n(check-sat)\n(get-model)\n", g)
+	return sb.String()
+}
+
+// filterPrelude drops axiom blocks (";;AXIOMS <key>" ... ";;END") whose key symbol does not occur in
+// the obligation, so that quantifier-free obligations stay quantifier-free.
+func filterPrelude(prelude, body string) string {
+	var sb strings.Builder
+	lines := strings.Split(prelude, "\n")
+	skip := false
+	for _, ln := range lines {
+		if strings.HasPrefix(ln, ";;AXIOMS ") {
+			keys := strings.Fields(ln)[1:]
+			need := false
+			for _, k := range keys {
+				if strings.Contains(body, k) {
+					need = true
+				}
+			}
+			skip = !need
+			continue
+		}
+		if strings.HasPrefix(ln, ";;END") {
+			skip = false
+			continue
+		}
+		if !skip {
+			sb.WriteString(ln)
+			sb.WriteByte('\n')
+		}
+	}
 	return sb.String()
 }
 
@@ -321,14 +363,18 @@ func Discharge(fr *FuncRun, timeoutS int, filter func(*Oblig) bool) []ObResult {
 			defer wg.Done()
 			sem <- struct{}{}
 			defer func() { <-sem }()
-			res[i] = dischargeOne(fr, o, timeoutS)
+			to := timeoutS
+			if knownFindingObl(o.Name) && to > 8 {
+				to = 8 // expected to fail: do not spend the full budget on it
+			}
+			res[i] = dischargeOne(fr, o, to)
 		}(i, o)
 	}
 	wg.Wait()
 	return res
 }
 
-var parallelism = 16
+var parallelism = 8
 var termMu sync.Mutex
 
 func dischargeOne(fr *FuncRun, o *Oblig, timeoutS int) ObResult {
@@ -367,4 +413,20 @@ func dischargeOne(fr *FuncRun, o *Oblig, timeoutS int) ObResult {
 		r.Output = sr.Output
 	}
 	return r
+}
+
+var kfCache []KnownFinding
+var kfLoaded bool
+
+func knownFindingObl(name string) bool {
+	if !kfLoaded {
+		kfCache = loadKnownFindings()
+		kfLoaded = true
+	}
+	for _, k := range kfCache {
+		if k.Status == "open" && regexp.MustCompile(k.Obligation).MatchString(name) {
+			return true
+		}
+	}
+	return false
 }
